@@ -14,6 +14,7 @@
    The full statement of DESIGN 5.19 is proved: C19_threats_sound.  The placement half alone is C19_threats_place_sound. *)
 From Coq Require Import NArith ZArith List Bool.
 Require Import Board Flood Move GameOver Refine GameOverFacts2 GameOverFacts5 Eval EvalSpec Threats ThreatsFacts1 ThreatsFacts3 ThreatsFacts4 ThreatsFacts5 ThreatsFacts6.
+Require ThreatsFacts7 Reach1 Alloc.
 Import ListNotations.
 
 (* CountThreats' closure is the sum, over the groups in order, of the popcounts of that group's two maps. *)
@@ -79,6 +80,27 @@ Theorem C19_threats_sound : forall p wp wtt bp btt, inv p -> (2 <= move p)%Z -> 
      exists m p', mv p m = Ok p' /\ road_win p' GBlack).
 Proof. exact threats_sound. Qed.
 Print Assumptions C19_threats_sound.
+
+(* The "mover has a piece left" hypothesis is what "the game is not over" gives (GameOver ends the game when a reserve is empty):
+   for every position of C02's invariant, from ply 2 on, in which the game is not over, a positive count of the side to move yields
+   a legal move after which the engine reports a road win of the mover. *)
+Theorem C19_threats_sound_live : forall p c wp wtt bp btt, inv p -> (2 <= move p)%Z -> game_over p = Some (false, c) ->
+  threats p = Some (wp, wtt, bp, btt) ->
+  (to_move_white p = true -> (0 < wp + wtt)%Z -> exists m p', mv p m = Ok p' /\ road_win p' GWhite) /\
+  (to_move_white p = false -> (0 < bp + btt)%Z -> exists m p', mv p m = Ok p' /\ road_win p' GBlack).
+Proof. exact ThreatsFacts7.threats_sound_live. Qed.
+Print Assumptions C19_threats_sound_live.
+
+(* ... and for the positions of real games no hypothesis about the position is left: any size 3..8, any piece set of at most 64
+   pieces, any sequence of at least two accepted moves from tak.New that leaves the game undecided. *)
+Theorem C19_threats_sound_game : forall sz bwt stones caps ms p c wp wtt bp btt,
+  (3 <= sz <= 8)%N -> (2 * (stones + caps) <= 64)%N -> Reach1.no_pass ms -> (2 <= length ms)%nat ->
+  Reach1.replay (Alloc.new_pos sz bwt stones caps) ms = Ok p -> game_over p = Some (false, c) ->
+  threats p = Some (wp, wtt, bp, btt) ->
+  (to_move_white p = true -> (0 < wp + wtt)%Z -> exists m p', mv p m = Ok p' /\ road_win p' GWhite) /\
+  (to_move_white p = false -> (0 < bp + btt)%Z -> exists m p', mv p m = Ok p' /\ road_win p' GBlack).
+Proof. exact ThreatsFacts7.threats_sound_game. Qed.
+Print Assumptions C19_threats_sound_game.
 
 (* Non-vacuity of the slide half: wp = 0, wt = 1, and the slide (type 8 = down, from c2 to c1) wins. *)
 Theorem C19_nonvacuous_slide :
